@@ -3,12 +3,13 @@
    C12_root.v (bracket invariant of the generated root loop for an arbitrary table, real-number
    instance) and C12_defs/C12_grid_*/C12_main.v (binary64 kernel evaluation on an explicit grid).
    The model is regenerated from /repo on every run. *)
-From Coq Require Import Reals ZArith List String PrimFloat.
+From Coq Require Import Reals ZArith List String PrimFloat Lia.
 Set Warnings "-ambiguous-paths".
 From Coquelicot Require Import Coquelicot.
 From PyLib Require Import PyVal PyBuiltins Ideal.
 From Gen Require Import M_base M_Angle M_Interpolation.
-From Proofs.C12 Require C12_defs C12_main.
+From Proofs.C12 Require C12_defs C12_main C12_gen.
+From Spec Require Newton.
 From Proofs.C12 Require Import C12_tac C12_nd C12_dup3 C12_ctor3 C12_ctor4 C12_ideal C12_root C12_witness.
 Import ListNotations.
 Open Scope R_scope.
@@ -211,6 +212,63 @@ Proof.
     (ctor4_copy x1 x2 x3 x4 y1 y2 y3 y4))))))))))))))))))))))))).
 Qed.
 
+(* ===== tables of ANY length n (1 <= n <= 64: the model's recursion fuel for _newton_diff is 64) =====
+   [ideal] The stored lists are symbolic Coq lists xs, ys of equal length whose abscissae are pairwise at
+   least tol apart (C12_gen.separated: what set()'s duplicate check guarantees); sortedness is only used
+   for the in-range test of __call__.  Proofs by induction over the generated loops (C12_gen.v), the
+   mathematics in Spec/Newton.v.  The constructor set()/_order_points itself is proved for n = 3, 4 only
+   (C12_constructor_3/_4 above). *)
+
+(* _newton_diff(0, k) is the divided difference f[x_0..x_k] (Spec.Newton.dd), whatever the table field holds *)
+Theorem C12_newton_diff_any : forall (xs ys : list R) k tb,
+  List.length ys = List.length xs -> C12_gen.separated xs -> (k < 64)%nat -> (k < List.length xs)%nat ->
+  Interpolation__newton_diff Rops (C12_gen.tobj xs ys tb) (VInt 0) (VInt (Z.of_nat k))
+  = VFloat (Newton.dd (C12_gen.nthR xs) (C12_gen.nthR ys) k 0).
+Proof.
+  intros xs ys k tb L S H64 Hk.
+  apply C12_gen.newton_diff_gen; [exact L | apply C12_gen.separated_distinct; exact S | exact H64 | exact Hk].
+Qed.
+
+(* _compute_table fills the coefficient table with dd 0 0, dd 1 0, ..., dd (n-1) 0 *)
+Theorem C12_compute_table_any : forall xs ys : list R,
+  List.length ys = List.length xs -> C12_gen.separated xs -> (List.length xs <= 64)%nat ->
+  Interpolation__compute_table Rops (C12_gen.tobj xs ys (C12_gen.flist []))
+  = VTuple [C12_gen.tobj xs ys (C12_gen.flist (map (fun k => Newton.dd (C12_gen.nthR xs) (C12_gen.nthR ys) k 0)
+                                                     (seq 0 (List.length xs)))); VNone].
+Proof. exact C12_gen.built_by_compute_table. Qed.
+
+(* on that object __call__ returns the tabulated ordinate at EVERY tabulated abscissa, and between the
+   nodes (inside the table, at least tol away from every node) the Newton form NF through all n points,
+   evaluated by Horner's scheme *)
+Theorem C12_call_any : forall xs ys : list R,
+  List.length ys = List.length xs -> C12_gen.separated xs ->
+  (forall j, (j < List.length xs)%nat ->
+     Interpolation___call__ Rops (C12_gen.built xs ys) (VFloat (C12_gen.nthR xs j)) = VFloat (C12_gen.nthR ys j)) /\
+  (forall x, (0 < List.length xs)%nat ->
+     C12_gen.nthR xs 0 <= x -> x <= C12_gen.nthR xs (List.length xs - 1) ->
+     (forall i, (i < List.length xs)%nat -> C12_gen.tol0 <= Rabs (x - C12_gen.nthR xs i)) ->
+     Interpolation___call__ Rops (C12_gen.built xs ys) (VFloat x)
+     = VFloat (Newton.NF (C12_gen.nthR xs) (C12_gen.nthR ys) 0 (List.length xs - 1) x)).
+Proof.
+  intros xs ys L S. split.
+  - intros j Hj. apply C12_gen.call_at_node; assumption.
+  - intros x Hn Hlo Hhi Ha. apply C12_gen.call_between; assumption.
+Qed.
+
+(* [spec, bridged by C12_call_any] that Newton form passes through every point (so the polynomial, not only
+   the |x - xi| < tol shortcut, interpolates), and it reproduces EVERY polynomial of degree < n (coefficient
+   list p of length <= n) from its values at the nodes, at every x: uniqueness of the interpolant *)
+Theorem C12_interpolates_any : forall xs ys : list R, C12_gen.separated xs -> (0 < List.length xs)%nat ->
+  let xf := C12_gen.nthR xs in let yf := C12_gen.nthR ys in let n := List.length xs in
+  (forall j, (j < n)%nat -> Newton.NF xf yf 0 (n - 1) (xf j) = yf j) /\
+  (forall p : list R, (List.length p <= n)%nat -> (forall j, (j < n)%nat -> yf j = Newton.peval p (xf j)) ->
+     forall x, Newton.NF xf yf 0 (n - 1) x = Newton.peval p x).
+Proof.
+  intros xs ys S Hn xf yf n. pose proof (C12_gen.separated_distinct_on xs S) as D. split.
+  - intros j Hj. apply Newton.NF_interpolates; [exact D | subst n; lia].
+  - intros p Lp Hy x. apply Newton.NF_reproduces; [exact D | subst n; lia | intros j Hj; apply Hy; subst n; lia].
+Qed.
+
 (* [ideal, n = 3 only, two-list form only] duplicated abscissae (any pair closer than tol) are refused with ValueError (three points, two-list form) *)
 Theorem C12_duplicates : forall p1 p2 p3 q1 q2 q3,
   Rabs (p1 - p2) < tol0 \/ Rabs (p1 - p3) < tol0 \/ Rabs (p2 - p3) < tol0 ->
@@ -320,6 +378,10 @@ Redirect "C12_newton_diff.assumptions" Print Assumptions C12_newton_diff.
 Redirect "C12_constructor_3.assumptions" Print Assumptions C12_constructor_3.
 Redirect "C12_constructor_4.assumptions" Print Assumptions C12_constructor_4.
 Redirect "C12_duplicates.assumptions" Print Assumptions C12_duplicates.
+Redirect "C12_newton_diff_any.assumptions" Print Assumptions C12_newton_diff_any.
+Redirect "C12_compute_table_any.assumptions" Print Assumptions C12_compute_table_any.
+Redirect "C12_call_any.assumptions" Print Assumptions C12_call_any.
+Redirect "C12_interpolates_any.assumptions" Print Assumptions C12_interpolates_any.
 Redirect "C12_root_step.assumptions" Print Assumptions C12_root_step.
 Redirect "C12_root_sound.assumptions" Print Assumptions C12_root_sound.
 Redirect "C12_root_witness.assumptions" Print Assumptions C12_root_witness.
